@@ -231,17 +231,36 @@ macro_rules! w_harness {
     };
 }
 
+/// Same, with the Carrier replaced by its contract (decided by C12.K1): used where the request reaches the Responder.
+macro_rules! wc_harness {
+    ($name:ident, $body:expr) => {
+        #[kani::proof]
+        #[kani::stub(bitcoin::Transaction::compute_txid, crate::verif_stubs::txid_model)]
+        #[kani::stub(bitcoin::block::Header::block_hash, crate::verif_stubs::block_hash_model)]
+        #[kani::stub(Carrier::send_transaction, Carrier::send_transaction_contract)]
+        #[kani::stub(Carrier::in_mempool, Carrier::in_mempool_contract)]
+        #[kani::stub(teos_common::cryptography::recover_pk, crate::verif_stubs::recover_pk_scripted)]
+        #[kani::stub(teos_common::cryptography::sign, crate::verif_stubs::sign_model)]
+        #[kani::stub(teos_common::cryptography::decrypt, crate::verif_stubs::decrypt_model)]
+        #[kani::stub(crate::extended_appointment::UUID::new, crate::verif_stubs::uuid_model)]
+        #[kani::unwind(6)]
+        fn $name() {
+            $body
+        }
+    };
+}
+
 w_harness!(c06_add_bad_signature, add_appointment_step(None, false, Pre::Fresh, true, false, true, Outcome::Ok, 3));
-w_harness!(c06_add_unregistered_key, add_appointment_step(Some(2), false, Pre::Fresh, true, true, true, Outcome::Ok, 3));
-w_harness!(c06_add_expired, add_appointment_step(Some(0), true, Pre::Fresh, true, true, true, Outcome::Ok, 3));
-w_harness!(c06_add_already_triggered, add_appointment_step(Some(0), false, Pre::Triggered, true, true, true, Outcome::Ok, 3));
+w_harness!(c06_add_unregistered_key, add_appointment_step(Some(2), false, Pre::Fresh, true, false, true, Outcome::Ok, 3));
+w_harness!(c06_add_expired, add_appointment_step(Some(0), true, Pre::Fresh, true, false, true, Outcome::Ok, 3));
+w_harness!(c06_add_already_triggered, add_appointment_step(Some(0), false, Pre::Triggered, true, false, true, Outcome::Ok, 3));
 w_harness!(c07_add_no_slots, add_appointment_step(Some(0), false, Pre::Fresh, false, false, true, Outcome::Ok, 3));
 w_harness!(c07_add_two_slots, add_appointment_step(Some(0), false, Pre::Fresh, true, false, true, Outcome::Ok, 2049));
 w_harness!(c07_add_update_grow, add_appointment_step(Some(0), false, Pre::Stored, true, false, true, Outcome::Ok, 4097));
 w_harness!(c08_add_new, add_appointment_step(Some(0), false, Pre::Fresh, true, false, true, Outcome::Ok, 3));
 w_harness!(c08_add_update, add_appointment_step(Some(0), false, Pre::Stored, true, false, true, Outcome::Ok, 3));
-w_harness!(c01_add_late_accepted, add_appointment_step(Some(0), false, Pre::Fresh, true, true, true, Outcome::Ok, 3));
-w_harness!(c01_add_late_garbled, add_appointment_step(Some(0), false, Pre::Fresh, true, true, false, Outcome::Ok, 3));
-w_harness!(c01_add_late_rejected, add_appointment_step(Some(0), false, Pre::Fresh, true, true, true, Outcome::Rpc(-26), 3));
-w_harness!(c11_add_late_already_in_chain, add_appointment_step(Some(0), false, Pre::Fresh, true, true, true, Outcome::Rpc(-27), 3));
-w_harness!(c11_add_late_update_of_stored, add_appointment_step(Some(0), false, Pre::Stored, true, true, true, Outcome::Ok, 3));
+wc_harness!(c01_add_late_accepted, add_appointment_step(Some(0), false, Pre::Fresh, true, true, true, Outcome::Ok, 3));
+wc_harness!(c01_add_late_garbled, add_appointment_step(Some(0), false, Pre::Fresh, true, true, false, Outcome::Ok, 3));
+wc_harness!(c01_add_late_rejected, add_appointment_step(Some(0), false, Pre::Fresh, true, true, true, Outcome::Rpc(-26), 3));
+wc_harness!(c11_add_late_already_in_chain, add_appointment_step(Some(0), false, Pre::Fresh, true, true, true, Outcome::Rpc(-27), 3));
+wc_harness!(c11_add_late_update_of_stored, add_appointment_step(Some(0), false, Pre::Stored, true, true, true, Outcome::Ok, 3));
